@@ -1,7 +1,7 @@
 (* C15 -- vertex clean-up.  PARTIAL: "only original vertices, original order, exact criterion" are proved
    for the generated Polygon2D code; corner preservation, redundancy removal across the seam and idempotence
    are validated on decorated loops over every rotation and both orientations. *)
-From LBG Require Import Base QGeom ListCyc G0_vec G1_shapes G2_inter G3_poly G9_clean C15_clean.
+From LBG Require Import Base QGeom ListCyc G0_vec G1_shapes G2_inter G3_poly G9_clean C15_clean C15_polyline.
 Open Scope Q_scope.
 
 Theorem C15_remove_duplicates_keeps_order : forall p tol,
@@ -30,6 +30,32 @@ Proof. exact remove_colinear_only_original_vertices. Qed.
 Print Assumptions C15_remove_colinear_only_original_vertices.
 
 (* an exactly collinear mid-edge vertex and a duplicate are removed, the corners stay (square with extras) *)
+(* ---- open polylines: Polyline2D.remove_colinear_vertices, generated from the source (index loop with a `skip` counter) ---------- *)
+Theorem C15_polyline2d_remove_colinear_is_the_scan : forall (p : Polyline2R) tol,
+  let L := pl2_vertices p in (3 <= length L)%nat ->
+  (length L = 3%nat -> Polyline2D_remove_colinear_vertices p tol = p) /\
+  (length L <> 3%nat ->
+   pl2_vertices (Polyline2D_remove_colinear_vertices p tol)
+   = hd (mkV2 0 0) L :: scan tol (hd (mkV2 0 0) L) (tl L) ++ [last L (mkV2 0 0)]).
+Proof. exact polyline_remove_colinear_spec. Qed.
+Print Assumptions C15_polyline2d_remove_colinear_is_the_scan.
+
+(* the scan keeps only original interior vertices; it keeps all of them when every one is a corner whatever vertex precedes it *)
+Theorem C15_polyline_scan_keeps_only_original_vertices : forall tol l prev v, In v (scanp tol prev l) -> In v (map fst l).
+Proof. exact scanp_sub. Qed.
+Print Assumptions C15_polyline_scan_keeps_only_original_vertices.
+
+Theorem C15_polyline_scan_keeps_every_corner : forall tol l prev,
+  (forall v n, In (v, n) l -> forall a, tol <= Qabs (tri2 a v n)) -> scanp tol prev l = map fst l.
+Proof. exact scanp_keeps_corners. Qed.
+Print Assumptions C15_polyline_scan_keeps_every_corner.
+
+Example C15_polyline_nonvacuous :
+  pl2_vertices (Polyline2D_remove_colinear_vertices
+    (mkPolyline2 [mkV2 0 0; mkV2 1 0; mkV2 2 0; mkV2 2 1; mkV2 2 2; mkV2 0 2] false) (1 # 100))
+  = [mkV2 0 0; mkV2 2 0; mkV2 2 2; mkV2 0 2].
+Proof. vm_compute. reflexivity. Qed.
+
 Example C15_nonvacuous :
   let p := mkPolygon2 [mkV2 0 0; mkV2 2 0; mkV2 4 0; mkV2 4 0; mkV2 4 4; mkV2 0 4] in
   map (fun v => (v2x v, v2y v)) (pg_vertices (Polygon2D_remove_colinear_vertices qsqrt_exec p (1 # 100)))
